@@ -258,14 +258,9 @@ func c14Gen(r *vu.Rng, _ int) []string {
 	if r.Chance(1, 3) {
 		n = r.Range(2, 3)
 	}
-	// special scenarios (single request): request sent before the server's SETTINGS are seen;
-	// nil body with announced trailers
-	neverEnds := false
-	switch r.Intn(25) {
-	case 0, 1:
+	// special scenario (single request): request sent before the server's SETTINGS are seen
+	if r.Chance(2, 25) {
 		cfg.early, n = 1, 1
-	case 2:
-		neverEnds, n = true, 1
 	}
 	lines := []string{cfg.line()}
 	for i := 0; i < n; i++ {
@@ -303,9 +298,12 @@ func c14Gen(r *vu.Rng, _ int) []string {
 		if !rq.nilBody {
 			rq.trl = c14GenTrailers(r, true)
 		}
-		if neverEnds {
-			rq.nilBody, rq.cl, rq.body = true, 0, nil
-			rq.trl = []c14KV{{"X-Trailer-A", []string{"v"}}}
+		if rq.nilBody && r.Chance(1, 3) {
+			// announced trailers without a body: not sent, the request ends with its headers
+			rq.trl = c14GenTrailers(r, true)
+			if len(rq.trl) == 0 {
+				rq.trl = []c14KV{{"X-Trailer-A", []string{"v"}}}
+			}
 		}
 		if cfg.early == 1 {
 			// a repeated field: its second occurrence is an index into the encoder's dynamic table
